@@ -194,8 +194,29 @@ func c08(tier string) {
 	for _, s := range c08Syntaxes {
 		synCode[s.name] = s.code
 	}
+	// harmless profiles whose own helper is NAMED like a denied built-in (inside that package the name is the helper):
+	// whatever the tool makes of them, the profiles compiled afterwards in the same process are judged as before
+	shadowHead := "profile: shadow\nprefixes:\n  ex: http://ex.org/\n"
+	shadowTail := "violation:\n  - v\nvalidations:\n  v:\n    targetClass: ex.T\n    message: m\n    rego: |\n      $result = (count([1]) == 1)\n"
+	shadows := []string{
+		shadowHead + "rego_extensions: |\n  walk(x) = y {\n    y := x\n  }\n" + shadowTail,
+		shadowHead + "rego_extensions: |\n  http.send(req) = resp {\n    resp := {\"status_code\": 200}\n  }\n" + shadowTail,
+		shadowHead + "rego_extensions: |\n  net.lookup_ip_addr(name) = addrs {\n    addrs := [name]\n  }\n" + shadowTail,
+		shadowHead + "rego_extensions: |\n  opa.runtime() = rt {\n    rt := {}\n  }\n" + shadowTail,
+		shadowHead + "rego_extensions: |\n  rego.parse_module(a, b) = m {\n    m := {\"a\": a, \"b\": b}\n  }\n" + shadowTail,
+		shadowHead + "rego_extensions: |\n  http = {\"send\": 1}\n  walk = 5\n" + shadowTail,
+	}
 	ctx.ForEach(len(cells), func(i int) {
 		c := cells[i]
+		if i%5 == 0 {
+			sp := shadows[(i/5)%len(shadows)]
+			if sc := lib.Compile(sp, nil); !sc.Failed() {
+				ctx.Count("profiles_with_a_helper_named_like_a_denied_builtin_accepted", 1)
+				_ = lib.ValidateCompiled(sc.Q, data)
+			} else {
+				ctx.Count("profiles_with_a_helper_named_like_a_denied_builtin_rejected", 1)
+			}
+		}
 		legacy := strings.HasPrefix(c.syn, "with-legacy-identifier")
 		control := c08Position(c.pos, strings.ReplaceAll(synCode[c.syn], "$C", harmless), "")
 		if cc := lib.Compile(control, nil); cc.Failed() {
